@@ -1,9 +1,214 @@
 import Driver.Proto
+import Driver.C01
+import Driver.Rx
+import ScrapliModel.Loss
+import ScrapliModel.Generated.C06Patterns
 namespace Driver
-open Scrapli
+open Scrapli Scrapli.Chan Scrapli.Loss
 
-/-- line-protocol handler for property C06 (arguments after the leading `c06` token) -/
+/-! line-protocol handler for property C06 (arguments after the leading `c06` token)
+
+`c06 cli <depth> <exact> <kind> <ks> <stale> <phase>*`
+  kind ∈ eof|err|werr; ks = comma separated loss points (bytes delivered / written before the loss);
+  stale = chunks in the queue when the operation starts; phase =
+  `w;<hex>;<react-chunks>` | `r;e;<cmdhex>` (echo, fuzzy/exact per <exact>) | `r;p;<name+name…>`
+  (any of the named patterns on the search window).
+  → `<exact> <need> <wneed> <maxAdj> <res>;<res>;…` with res = `<dom>/<outcomes>/<timeok>`;
+  outcomes = `|`-joined set over four canonical schedules of `ok:<hexlist>` / `err:<class>` / `run`.
+`c06 nc <pattern> <kind> <ks> <nb> <mid> <write>*` with write = `<hex>;<react-chunks>`
+  → `<res>;<res>;…` with res = `<dom>/<outcomes>/<timeok>`.
+`c06 rx <name> <hex>` → 0/1 (isMatch). -/
+
+def lookupRe6 (name : String) : Option Rx.Re :=
+  match (Gen.Rx.C06.all.find? fun (n, _, _) => n == name) with
+  | some (_, r, _) => some r
+  | none => lookupRe name
+
+def anyPred (res : List Rx.Re) (depth : Nat) (rb : Bytes) : Bool :=
+  let w := window rb depth
+  res.any fun re => Rx.isMatch re w
+
+def parsePhase (cfg : Cfg) (f : String) : Option Phase :=
+  match f.splitOn ";" with
+  | ["w", b, react] => do
+    let b ← fromHex b
+    let react ← hexList react
+    pure (.write b react)
+  | ["r", "e", cmd] => do
+    let cmd ← fromHex cmd
+    pure (.read (echoPred cfg cmd))
+  | ["r", "p", names] => do
+    let res ← (names.splitOn "+").mapM lookupRe6
+    pure (.read (anyPred res cfg.depth))
+  | _ => none
+
+def exactB : Bytes → List Phase → Bool
+  | _, [] => true
+  | U, .write _ r :: rest => exactB (U ++ r.flatten) rest
+  | U, .read P :: rest => exactAtB P U && exactB [] rest
+
+/-- direct Boolean reading of `Doomed` -/
+def doomedB : Bytes → Nat → List Phase → Bool
+  | _, _, [] => false
+  | U, B, .write _ r :: rest => doomedB (U ++ r.flatten) B rest
+  | U, B, .read P :: rest =>
+    ((List.range (min B U.length + 1)).all fun j => !P (U.take j)) ||
+      (exactAtB P U && U.length ≤ B && doomedB [] (B - U.length) rest)
+
+/-- per read phase of the lossless walk: (length of its unread stream, first prefix length at which
+    its predicate fires, whether that is exactly the end) — computed once per sweep -/
+def fireTable : Bytes → List Phase → List (Nat × Option Nat × Bool)
+  | _, [] => []
+  | U, .write _ r :: rest => fireTable (U ++ r.flatten) rest
+  | U, .read P :: rest =>
+    let ff := (List.range (U.length + 1)).find? fun j => P (U.take j)
+    (U.length, ff, ff == some U.length) :: fireTable [] rest
+
+/-- `Doomed` evaluated from the table (same recursion as `doomedB`) -/
+def doomedT : Nat → List (Nat × Option Nat × Bool) → Bool
+  | _, [] => false
+  | B, (len, ff, ex) :: rest =>
+    (match ff with | none => true | some f => B < f) || (ex && len ≤ B && doomedT (B - len) rest)
+
+def errName : Err → String
+  | .transport => "transport"
+  | .connection => "connection"
+  | .write => "write"
+
+def resName : Res → String
+  | .ok outs => "ok:" ++ showHexList outs
+  | .error e => "err:" ++ errName e
+
+/-- repeat `pat` until the operation returns; reports the result, the step index at which the loss
+    was first reported and the step index of the return (in units of `pat` repetitions) -/
+def simulate (pat : List Actor) : Nat → Nat → St → Op → Option Nat → (Option Res × Option Nat × Nat)
+  | 0, t, _, _, tl => (none, tl, t)
+  | fuel + 1, t, s, o, tl =>
+    match run pat s o with
+    | (s', .inr r) =>
+      let tl' := match tl with | some x => some x | none => if s'.lost then some t else none
+      (some r, tl', t)
+    | (s', .inl o') =>
+      let tl' := match tl with | some x => some x | none => if s'.lost then some t else none
+      simulate pat fuel (t + 1) s' o' tl'
+
+def schedules : List (List Actor) :=
+  [[.rdr, .op], [.op, .rdr], [.rdr, .rdr, .rdr, .op], [.op, .op, .op, .rdr]]
+
+def addSet (l : List String) (x : String) : List String := if l.contains x then l else l ++ [x]
+
+def cliCase (prog : List Phase) (stale : List Bytes) (kind : String) (k : Nat)
+    (table : List (Nat × Option Nat × Bool)) (fuel : Nat) : String :=
+  let total := prog.foldl (fun acc p => match p with | .write _ r => acc + r.flatten.length | _ => acc) 0
+  let s0 : St :=
+    if kind == "werr" then
+      { pending := [], left := total + stale.flatten.length + 1, kind := .eof, wleft := some k, q := stale, rd := .running, lost := false }
+    else
+      { pending := [], left := k, kind := if kind == "eof" then .eof else .err, wleft := none, q := stale, rd := .running, lost := false }
+  let o0 : Op := { prog := prog, rb := [], outs := [] }
+  let dom :=
+    if kind == "werr" then k < wneed prog
+    else doomedT (k + stale.flatten.length) table
+  let rs := schedules.map fun pat => simulate pat fuel 0 s0 o0 none
+  let outs := rs.foldl (fun acc (r, _, _) => addSet acc (match r with | some r => resName r | none => "run")) []
+  -- model time: under the two tick schedules the return comes at most maxAdj+1 ticks after the loss
+  let bound := maxAdjWrites prog + 1
+  let timeok := (rs.take 2).all fun (r, tl, t) =>
+    match r, tl with
+    | some (.error e), some tl => e == .write || t ≤ tl + bound
+    | _, _ => true
+  s!"{b2s dom}/{"|".intercalate outs}/{b2s timeok}"
+
+def parseNats (s : String) : Option (List Nat) :=
+  if s == "." then some [] else (s.splitOn ",").mapM String.toNat?
+
+/-! NETCONF -/
+
+def parseWrite (f : String) : Option (Bytes × List Bytes) :=
+  match f.splitOn ";" with
+  | [b, react] => do
+    let b ← fromHex b
+    let react ← hexList react
+    pure (b, react)
+  | _ => none
+
+def nsimulate (msgP : Bytes → Bool) (idOf : Bytes → Nat) (pat : List NActor) :
+    Nat → Nat → NSt → Rpc → Option Nat → (Option Res × Option Nat × Nat)
+  | 0, t, _, _, tl => (none, tl, t)
+  | fuel + 1, t, n, r, tl =>
+    match nrun msgP idOf pat n r with
+    | (n', .inr res) =>
+      let tl' := match tl with | some x => some x | none => if n'.ch.lost then some t else none
+      (some res, tl', t)
+    | (n', .inl r') =>
+      let tl' := match tl with | some x => some x | none => if n'.ch.lost then some t else none
+      nsimulate msgP idOf pat fuel (t + 1) n' r' tl'
+
+def nschedules : List (List NActor) :=
+  [ntick 0, ntick 5, ntick 9, [.rdr, .rdr, .rdr, .fwd, .fwd, .rpc true], [.rpc false, .rpc false, .fwd, .rdr]]
+
+def nofireB (msgP : Bytes → Bool) (n : NSt) (r : Rpc) : Bool :=
+  (List.range (nbudget n + 1)).all fun j => !msgP ((nunread n r).take j)
+
+def ncCase (msgP : Bytes → Bool) (idOf : Bytes → Nat) (nb : Bytes) (mid : Nat)
+    (ws : List (Bytes × List Bytes)) (kind : String) (k : Nat) (fuel : Nat) : String :=
+  let total := ws.foldl (fun acc w => acc + w.2.flatten.length) 0
+  let ch : St :=
+    if kind == "werr" then
+      { pending := [], left := total + 1, kind := .eof, wleft := some k, q := [], rd := .running, lost := false }
+    else
+      { pending := [], left := k, kind := if kind == "eof" then .eof else .err, wleft := none, q := [], rd := .running, lost := false }
+  let n0 : NSt := { ch := ch, nb := nb, fwd := none, store := [] }
+  let r0 : Rpc := { writes := ws, mid := mid }
+  let wtotal := ws.foldl (fun acc w => acc + w.1.length) 0
+  let dom := if kind == "werr" then k < wtotal else nofireB msgP n0 r0
+  let rs := nschedules.map fun pat => nsimulate msgP idOf pat fuel 0 n0 r0 none
+  let outs := rs.foldl (fun acc (r, _, _) => addSet acc (match r with | some r => resName r | none => "run")) []
+  let bound := ws.length + 2
+  let timeok := (rs.take 3).all fun (r, tl, t) =>
+    match r, tl with
+    | some (.error e), some tl => e == .write || t ≤ tl + bound
+    | _, _ => true
+  s!"{b2s dom}/{"|".intercalate outs}/{b2s timeok}"
+
+def midOf (b : Bytes) : Nat :=
+  match Rx.findGroup Gen.Rx.Netconf.messageID b 1 with
+  | some d => (parseDec d).getD 0
+  | none => 0
+
 def handleC06 : List String → String
+  | "cli" :: depth :: exact :: kind :: ks :: stale :: phases =>
+    match depth.toNat?, parseNats ks, hexList stale with
+    | some d, some ks, some stale =>
+      let cfg := mkCfg d (s2b exact) true [10]
+      match phases.mapM (parsePhase cfg) with
+      | some prog =>
+        let table := fireTable stale.flatten prog
+        let ex := table.all fun (_, _, e) => e
+        let chunks := prog.foldl (fun acc p => match p with | .write _ r => acc + r.length + 1 | _ => acc + 1) 0
+        let fuel := 4 * (chunks + stale.length) + 24
+        let rs := ks.map fun k => cliCase prog stale kind k table fuel
+        -- the table evaluation of `Doomed` agrees with its direct reading (spot check)
+        let spot := [ks.head?, ks[ks.length / 2]?].all fun
+          | some k => kind == "werr" || doomedT (k + stale.flatten.length) table == doomedB stale.flatten (k + stale.flatten.length) prog
+          | none => true
+        if !spot then "bad-dom-table" else
+        s!"{b2s ex} {need stale.flatten.length prog} {wneed prog} {maxAdjWrites prog} {";".intercalate rs}"
+      | none => "bad-op"
+    | _, _, _ => "bad-op"
+  | "nc" :: pat :: kind :: ks :: nb :: mid :: writes =>
+    match lookupRe6 pat, parseNats ks, fromHex nb, mid.toNat?, writes.mapM parseWrite with
+    | some re, some ks, some nb, some mid, some ws =>
+      let msgP : Bytes → Bool := fun b => Rx.isMatch re b
+      let chunks := ws.foldl (fun acc w => acc + w.2.length + 1) 0
+      let fuel := 4 * chunks + 24
+      let rs := ks.map fun k => ncCase msgP midOf nb mid ws kind k fuel
+      ";".intercalate rs
+    | _, _, _, _, _ => "bad-op"
+  | ["rx", name, h] =>
+    match lookupRe6 name, fromHex h with
+    | some re, some s => b2s (Rx.isMatch re s)
+    | _, _ => "bad-op"
   | _ => "bad-op"
 
 end Driver
